@@ -69,6 +69,15 @@ def generate(rng, tier):
                     # physical-looking S(Q): positive at Qmin
                     c["desc"]["Qmin0"] = c["xin"][0] == 0.0
                     cases.append(c)
+    # one long problem (2500 Q points x 2500 r points): whatever path a size-dependent implementation takes
+    nb = 2500
+    qb = [0.4 + 0.012 * j for j in range(nb)]
+    big = {"dir": 0, "X": 0, "Y": 1, "xin": qb, "yin": [1.0 + 0.4 * math.sin(1.1 * v) * math.exp(-0.08 * v) for v in qb],
+           "xout": [0.05 + 0.01 * j for j in range(nb)], "dy": None, "mat": L.material(rng), "lorch": False, "omitted": True, "channel": 0,
+           "int_dtype": [False, False, False], "xmin": None, "xmax": None, "flagform": "bool", "callform": "pos", "big": True,
+           "desc": {"method": "S_to_G", "n": nb, "m": nb, "grid": "uniform", "data": "smooth", "int_arrays": "000", "out": "uniform", "dy": "none",
+                    "lorch": False, "omitted": True, "zero_on_grid": False, "Qmin0": False, "size": "2500 x 2500"}}
+    cases.append(big)
     return cases
 
 
@@ -78,7 +87,10 @@ def run_impl(pystog, case):
         return F.run_named(pystog, case)
 
 
-to_coq = F.named_to_coq
+def to_coq(case, res):
+    if case.get("big"):      # too long for a Coq literal: decided by the oracle alone
+        return None
+    return F.named_to_coq(case, res)
 
 
 def nontrivial(case, res):
